@@ -8,3 +8,6 @@ import NpsVerif.Props.C05
 import NpsVerif.Props.C14
 import NpsVerif.Props.C15
 import NpsVerif.Props.C16
+import NpsVerif.Props.C07
+import NpsVerif.Props.C08
+import NpsVerif.Props.C09
